@@ -23,7 +23,11 @@ THEOREMS = [
     "c08_server_one_response",
     "c08_tool_resource_codes",
     "c08_pinned_code_violates",
-    # second layer: the content of the library's handlers (Model/McpServer.lean)
+]
+# second layer — the content of the library's handlers (Model/McpServer.lean) and the independence theorems: next to the
+# property, not stated by its text (Props/C08Supp.lean; reported as INFO, never a verdict)
+SUPP_GEN: list[str] = []
+SUPP_THEOREMS = [
     "c08_tools_list_exact",
     "c08_register_same_name_keeps_latest",
     "c08_tools_call_invokes_exactly",
@@ -538,7 +542,7 @@ class Dispatch(Suite):
         out = directed(budget)
         rng = ctx.sub_rng("c08", budget)
         meths = all_methods()
-        n = 6000 if budget == "quick" else 60000
+        n = 3500 if budget == "quick" else 60000
         for _ in range(n):
             out.append(seeded(rng, meths))
         ctx.exhaustive_parts.append(
@@ -650,7 +654,7 @@ class Sequences(Suite):
     uses_model = False
 
     def cases(self, ctx, budget):
-        return sequences(ctx.sub_rng("c08seq", budget), 400 if budget == "quick" else 6000)
+        return sequences(ctx.sub_rng("c08seq", budget), 250 if budget == "quick" else 6000)
 
     def impl_batch(self, cases):
         return [H.run_case(c) for c in cases]
@@ -681,8 +685,6 @@ class Sequences(Suite):
 
 
 # ---- second layer: content of MCPServer's handlers ---------------------------------------------
-
-CONTENT_NOTES: list = []  # informational divergences (content the property text does not fix)
 
 C_NAMES = ["echo", "add", "echo", "", "t/1", "Ünï", "list"]
 C_URIS = ["file:///a/b.txt", "file:///a/", "plain", "", "file:///a/b.txt", "mem://x/y/z"]
@@ -809,6 +811,7 @@ class Content(Suite):
     """MCPServer's own handlers with recording application handlers vs Model/McpServer.lean: full results (tools/list,
     resources/list, tools/call content, resources/read contents, initialize), responses and the log of handlers run"""
     name = "content"
+    supplementary = True  # a difference from the content-level model is an INFO line and an evidence note, never a verdict
 
     def cases(self, ctx, budget):
         rng = ctx.sub_rng("c08content", budget)
@@ -835,7 +838,7 @@ class Content(Suite):
                      ["msg", {"jsonrpc": "2.0", "id": "d", "method": "initialize"}],
                      ["msg", {"jsonrpc": "2.0", "id": "e", "method": "ping"}]]},
         ]
-        return fixed + [rand_scenario(rng) for _ in range(700 if budget == "quick" else 12000)]
+        return fixed + [rand_scenario(rng) for _ in range(500 if budget == "quick" else 12000)]
 
     def impl_batch(self, cases):
         obs = [MC.run_scenario(c) for c in cases]
@@ -851,13 +854,9 @@ class Content(Suite):
             return "driver error"
         norm = MC.normalise_impl(case, o)
         if canon(MC.shape(norm["resps"])) != canon(MC.shape(m["resps"])):
-            return "responses differ in what the property names"  # presence, id, result / error code
+            return "responses differ in presence / id / code"
         if canon(norm) != canon({"resps": m["resps"], "log": m["log"]}):
-            # content the property text does not fix (listing order, content blocks, which handler ran): informational
-            if len(CONTENT_NOTES) < 5:
-                CONTENT_NOTES.append({"scenario": case, "impl": norm, "model": m})
-            elif len(CONTENT_NOTES) == 5:
-                CONTENT_NOTES.append({"more": True})
+            return "results or the log of handlers run differ (content the property text does not fix)"
         return None
 
     def oracle(self, case, o):
@@ -877,22 +876,12 @@ class Content(Suite):
             yield dict(case, ops=ops[:i] + ops[i + 1:])
 
 
-def extra(ctx, tier):
-    """supplementary (content-level) correspondence: differences are reported as notes, not as violations"""
-    if CONTENT_NOTES:
-        ctx.notes.append("INFORMATIONAL: the content-level model of MCPServer's handlers (Model/McpServer.lean) differs from the code "
-                         "on %s scenario(s) in results the property text does not fix; first: %s"
-                         % ("5+" if len(CONTENT_NOTES) > 5 else len(CONTENT_NOTES), canon(CONTENT_NOTES[0])[:1500]))
-        print(f"# C08 content-level model: {len(CONTENT_NOTES)} informational difference(s), see evidence notes")
-        del CONTENT_NOTES[:]
-
-
 class Concurrent(Sequences):
     """overlapping dispatches on one or several live server instances; judged message by message"""
     name = "concurrent"
 
     def cases(self, ctx, budget):
-        return concurrent(ctx.sub_rng("c08conc", budget), 400 if budget == "quick" else 8000)
+        return concurrent(ctx.sub_rng("c08conc", budget), 250 if budget == "quick" else 8000)
 
     @staticmethod
     def _steps(case):
